@@ -27,6 +27,9 @@ CHECKS = {
     "C10": dict(level="other", technique="deductive contracts (pyvc: ast->VC, z3/cvc5) on Range.overlaps, the conflict step/loop/final sort of _schedule_rewrites, _apply_rewrites, fix, chain; bounded marker-token drive of the real fix/chain for the textual splice",
                 text="Scheduler kernel proved for all rewrite lists of any length (all-or-nothing, never-overlap, dropped-only-if, precedence order, descending application order, valid-or-unchanged); the difflib-based splice and the end-to-end reading on output text are bounded (enumerated conflict configurations).",
                 note="trusted: z3/cvc5, the pyvc executor's model of Python (DESIGN 1.2), sorted()/set-comprehension models, ast.parse as validity; _do_rewrite only bounded", ref="5/C10"),
+    "C12": dict(level="other", technique="deductive contract (pyvc, loop invariants, float('inf') as extended integer) on the length pre-check of _match_list; table obligations on the count ranges of _iter_template_permutations and the dispatch of match_template (z3); slack lemma in Lean 4 + Mathlib (thorough tier); bounded regular-expression oracle over enumerated templates x lists, named-wildcard cases, corpus self-search",
+                text="The pre-check of _match_list rejects only lists no count vector can fit, the per-element count ranges are the declarative ones with a cap that provably cuts no solution (Lean lemma), and the dispatch order / by-identity singletons are fixed - for all templates and lists; the element-wise recursion, wildcard unification and search completeness are bounded (all quantifier templates of length <= 4 x all lists of length <= 5 against re.fullmatch, named cases, corpus self-search).",
+                note="trusted: z3, pyvc executor, Lean 4 kernel + Mathlib, CPython re as oracle of the bounded part; table obligations bind to exact expression text", ref="5/C12"),
     "C13": dict(level="other", technique="deductive contracts (pyvc) on _get_line_start_charnos, _get_charno, Match.*, _get_position, get_charnos, finditer/findall/search/match/fullmatch given a stated parser-position contract; bounded span oracle (ast.get_source_segment) for that assumption",
                 text="Offsets, spans, line/column and API coherence are proved for all sources, nodes and match sequences, given the stated contract of CPython's node positions; that contract itself (byte columns, line separators) is confronted with the real parser only on the corpus and generated variants (bounded).",
                 note="trusted: z3, pyvc executor, assumed contracts of io.StringIO.readlines/str.splitlines, re.findall for two literal patterns, utf-8 codec bounds; induction schema for the ls-monotone lemma", ref="5/C13"),
